@@ -49,6 +49,9 @@ def _ev(n):
                         f"{getattr(n, 'lineno', '?')}: {ast.dump(n)[:120]}")
 
 
+IMPORT_TIME = "__import_time_statements__"
+
+
 def load(root=None):
     root = root or REPO
     path = os.path.join(root, TABLE_REL)
@@ -57,7 +60,7 @@ def load(root=None):
     raw = open(path, "rb").read()
     dig = hashlib.sha1(raw).hexdigest()
     cdir = os.path.join(VERIF, ".cache")
-    cpath = os.path.join(cdir, f"tables-{dig}.pkl")
+    cpath = os.path.join(cdir, f"tables-v2-{dig}.pkl")
     if os.path.exists(cpath):
         try:
             return pickle.load(open(cpath, "rb"))
@@ -75,6 +78,10 @@ def load(root=None):
             continue
         elif isinstance(st, ast.Expr) and isinstance(st.value, ast.Constant):
             continue
+        elif isinstance(st, (ast.For, ast.While, ast.If, ast.AugAssign, ast.Delete, ast.Expr, ast.Assign)):
+            # code that runs at import after the literals: kept as text for symrules.tables_read_only, which decides whether it rewrites
+            # table entries (then the literals analysed here are not what the library uses)
+            out.setdefault(IMPORT_TIME, []).append((st.lineno, ast.unparse(st)))
         else:
             raise AnalysisError(f"symmetry_data.py: top-level statement not modelled at line {st.lineno}")
     for k in TABLE_NAMES:
